@@ -1,4 +1,256 @@
-import ChemModel.Model.EqSys
+/-
+C07 — equilibrium equations vanish exactly at, and only at, true equilibrium states.
+
+Property theorems only.  The model (`ChemModel.EqSys`, Model/EqSys.lean) mirrors
+`NumSysLin/Square/LinRel/Log.f` of chempy/_eqsys.py for `rref_equil = rref_preserv = False`;
+it is instantiated here with `ℝ` (Proofs/EqSys.lean).  Specification vocabulary:
+
+* `quotient c ν = ∏ⱼ cⱼ ^ νⱼ`  — mass-action quotient of a reaction with stoichiometry row `ν`
+* `total b c   = Σⱼ bⱼ · cⱼ`   — amount of one composition key (element, or charge = key 0)
+* `netStoichs s`               — rows `ν` of the written reactions (products − reactants)
+* `compMat s`                  — rows `b` of `composition_balance_vectors()`, one per composition key
+* `initConcsOf s p`, `eqParamsOf s p` — the two halves of `params = init_concs ++ eq_params`
+* `Homogeneous s`              — every species has `phase_idx = 0` (the quantifier of the property)
+
+All theorems are for every system size, every state and every parameter vector; a hypothesis
+`… = .ok r` says "the Python call returns `r`" (it raises ZeroDivisionError for a zero
+concentration under a negative exponent — `numSysLinF_defined` shows when it does return).
+
+`rref_equil / rref_preserv = True` call sympy's row reduction (external): only the algebra behind
+them is proved (`row_ops_preserve_zero_set`); their behaviour is validated per instance by the harness.
+-/
+import ChemModel.Proofs.EqSys
+
 namespace ChemModel.C07
-theorem placeholder : (1 : Nat) = 1 := rfl
+open ChemModel ChemModel.EqSys
+
+/-! ## Linear variables (`NumSysLin`) -/
+
+/-- **General form (any `precipitates`, any `small`, any constants, zero included).**
+    When `NumSysLin.f(y, params)` returns `r`: every entry of `r` is zero iff every row `(A_i, k_i)` of
+    `_get_A_ks` satisfies `∏ y^A_i = k_i` and every composition total of `y` equals that of `init_concs`.
+    (No `K ≠ 0` hypothesis is needed: for `k = 0` the code uses the residual `q` itself.) -/
+theorem lin_zero_iff_general (s : EqSystem) (prec : List Bool) (small : ℝ) (y p r : List ℝ)
+    (h : numSysLinF s prec small y p = .ok r) :
+    ∃ A, stoichs s (nonPrecipRids s prec) = .ok A ∧
+      ((∀ x ∈ r, x = 0) ↔
+        (∀ rk ∈ A.zip (ksOf s prec small p), quotient y rk.1 = rk.2) ∧
+        (∀ b ∈ compMat s, total b y = total b (initConcsOf s p))) := by
+  obtain ⟨A, hA, _, _, hr⟩ := numSysLinF_ok h
+  exact ⟨A, hA, by rw [hr]; exact lin_zero_iff_core A (compMat s) _ y _⟩
+
+/-- **`lin_zero_iff`.**  For a homogeneous system: the residual vector of `NumSysLin.f(y, c₀ ++ K)` is zero
+    iff `Q_i(y) = K_i` for every reaction (net stoichiometry as written) and `B·y = B·c₀`. -/
+theorem lin_zero_iff (s : EqSystem) (hs : Homogeneous s) (prec : List Bool) (small : ℝ) (y p r : List ℝ)
+    (h : numSysLinF s prec small y p = .ok r) :
+    (∀ x ∈ r, x = 0) ↔
+      (∀ νK ∈ (netStoichs s).zip (eqParamsOf s p), quotient y νK.1 = νK.2) ∧
+      (∀ b ∈ compMat s, total b y = total b (initConcsOf s p)) := by
+  obtain ⟨A, hA, hiff⟩ := lin_zero_iff_general s prec small y p r h
+  rw [stoichs_homog hs] at hA
+  cases hA
+  rw [ksOf_homog hs] at hiff
+  exact hiff
+
+/-- the call returns (does not raise) for a homogeneous system, well-shaped arguments and a state
+    without zero entries — so the hypotheses `… = .ok r` above are satisfiable at every positive state -/
+theorem lin_defined (s : EqSystem) (hs : Homogeneous s) (prec : List Bool) (small : ℝ) (y p : List ℝ)
+    (hshape : shapeOk s y p = true) (hy : ∀ x ∈ y, x ≠ 0) :
+    ∃ r, numSysLinF s prec small y p = .ok r :=
+  numSysLinF_defined hs prec small hshape hy
+
+/-- headline, both directions in one statement: at a positive state of a homogeneous system the call
+    returns a vector, and that vector is zero exactly at equilibrium states with the initial totals -/
+theorem lin_vanishes_exactly_at_equilibrium (s : EqSystem) (hs : Homogeneous s) (y p : List ℝ)
+    (hshape : shapeOk s y p = true) (hy : ∀ x ∈ y, 0 < x) :
+    ∃ r, numSysLinF s [] 0 y p = .ok r ∧
+      ((∀ x ∈ r, x = 0) ↔
+        (∀ νK ∈ (netStoichs s).zip (eqParamsOf s p), quotient y νK.1 = νK.2) ∧
+        (∀ b ∈ compMat s, total b y = total b (initConcsOf s p))) := by
+  obtain ⟨r, hr⟩ := lin_defined s hs [] 0 y p hshape (fun x hx => (hy x hx).ne')
+  exact ⟨r, hr, lin_zero_iff s hs [] 0 y p r hr⟩
+
+/-! ## Squared and relative variables -/
+
+/-- **`square_zero_iff`.**  `NumSysSquare.f(y, ·)` vanishes iff the state `c = y²` is an equilibrium
+    state with the initial totals. -/
+theorem square_zero_iff (s : EqSystem) (hs : Homogeneous s) (prec : List Bool) (small : ℝ) (y p r : List ℝ)
+    (h : numSysSquareF s prec small y p = .ok r) :
+    (∀ x ∈ r, x = 0) ↔
+      (∀ νK ∈ (netStoichs s).zip (eqParamsOf s p), quotient (y.map fun yi => yi * yi) νK.1 = νK.2) ∧
+      (∀ b ∈ compMat s, total b (y.map fun yi => yi * yi) = total b (initConcsOf s p)) :=
+  lin_zero_iff s hs prec small _ p r h
+
+/-- `NumSysLinRel.f(y, ·)` vanishes iff the state `c = m ∘ y` (`m` = `upper_conc_bounds(init_concs)`)
+    is an equilibrium state with the initial totals. -/
+theorem linrel_zero_iff (s : EqSystem) (hs : Homogeneous s) (prec : List Bool) (small : ℝ) (y p r : List ℝ)
+    (h : numSysLinRelF s prec small y p = .ok r) :
+    ∃ m, upperConcBounds s (initConcsOf s p) = .ok m ∧
+      ((∀ x ∈ r, x = 0) ↔
+        (∀ νK ∈ (netStoichs s).zip (eqParamsOf s p), quotient (List.zipWith (· * ·) m y) νK.1 = νK.2) ∧
+        (∀ b ∈ compMat s, total b (List.zipWith (· * ·) m y) = total b (initConcsOf s p))) := by
+  obtain ⟨m, hm, hlin⟩ := numSysLinRelF_ok h
+  exact ⟨m, hm, lin_zero_iff s hs prec small _ p r hlin⟩
+
+/-! ## Logarithmic variables (`NumSysLog`) -/
+
+/-- **General form**: for positive constants, `NumSysLog.f(y, ·)` vanishes iff the state `c = exp y`
+    satisfies every row of `_get_A_ks` and carries the initial totals. -/
+theorem log_zero_iff_general (s : EqSystem) (prec : List Bool) (small : ℝ) (y p r : List ℝ)
+    (h : numSysLogF s prec small y p = .ok r) (hK : ∀ k ∈ ksOf s prec small p, 0 < k) :
+    ∃ A, stoichs s (nonPrecipRids s prec) = .ok A ∧
+      ((∀ x ∈ r, x = 0) ↔
+        (∀ rk ∈ A.zip (ksOf s prec small p), quotient (y.map Real.exp) rk.1 = rk.2) ∧
+        (∀ b ∈ compMat s, total b (y.map Real.exp) = total b (initConcsOf s p))) := by
+  obtain ⟨A, hA, _, hr⟩ := numSysLogF_ok h
+  exact ⟨A, hA, by rw [hr]; exact log_zero_iff_core A (compMat s) _ y _ hK⟩
+
+/-- **`log_zero_iff`.**  Homogeneous system, `c > 0`, `K > 0`, `y = ln c`:
+    `NumSysLog.f(y, c₀ ++ K) = 0 ⇔ (∀ i, Q_i(c) = K_i) ∧ B·c = B·c₀`. -/
+theorem log_zero_iff (s : EqSystem) (hs : Homogeneous s) (prec : List Bool) (small : ℝ) (c p r : List ℝ)
+    (hc : ∀ x ∈ c, 0 < x) (hK : ∀ k ∈ eqParamsOf s p, 0 < k)
+    (h : numSysLogF s prec small (c.map Real.log) p = .ok r) :
+    (∀ x ∈ r, x = 0) ↔
+      (∀ νK ∈ (netStoichs s).zip (eqParamsOf s p), quotient c νK.1 = νK.2) ∧
+      (∀ b ∈ compMat s, total b c = total b (initConcsOf s p)) := by
+  have hexp : (c.map Real.log).map Real.exp = c := by
+    rw [List.map_map]
+    conv_rhs => rw [← List.map_id c]
+    apply List.map_congr_left
+    intro x hx
+    simp [Real.exp_log (hc x hx)]
+  obtain ⟨A, hA, hiff⟩ := log_zero_iff_general s prec small _ p r h (by rw [ksOf_homog hs]; exact hK)
+  rw [stoichs_homog hs] at hA
+  cases hA
+  rw [ksOf_homog hs, hexp] at hiff
+  exact hiff
+
+/-- the logarithmic call returns for every well-shaped argument of a homogeneous system with at least one
+    species (`exp`/`log` never raise) — the hypothesis `… = .ok r` of `log_zero_iff` is always satisfiable -/
+theorem log_defined (s : EqSystem) (hs : Homogeneous s) (prec : List Bool) (small : ℝ) (y p : List ℝ)
+    (hshape : shapeOk s y p = true) (hns : 0 < s.ns) :
+    ∃ r, numSysLogF s prec small y p = .ok r :=
+  numSysLogF_defined hs prec small hshape hns
+
+/-! ## Conservation block and reaction extents -/
+
+/-- **`conservation_iff_same_totals`.**  The conservation block `linear_exprs(B, y, mat_dot_vec(B, c₀))`
+    vanishes iff `y` and `c₀` carry the same amount of every composition key. -/
+theorem conservation_iff_same_totals (B : List (List ℤ)) (y c0 b : List ℝ)
+    (hb : matDotVec (intMat B) c0 = some b) :
+    (∀ x ∈ linearExprs B y b, x = 0) ↔ ∀ brow ∈ B, total brow y = total brow c0 := by
+  rw [linearExprs_real, matDotVec_real hb, forall_zipWith,
+    zip_map_right_self (fun row => total row c0) B (fun row v => total row y - v = 0)]
+  exact ⟨fun h brow hb => sub_eq_zero.mp (h brow hb), fun h brow hb => sub_eq_zero.mpr (h brow hb)⟩
+
+/-- every written reaction conserves every composition key (`B·νᵀ = 0`): what the constructor's
+    `check_balance` establishes -/
+def Balanced (s : EqSystem) : Prop := ∀ b ∈ compMat s, ∀ ν ∈ netStoichs s, idot b ν = 0
+
+/-- **`extent_preserves_totals`.**  In a balanced system, any combination of reaction extents
+    `c = c₀ + Nᵀξ` leaves every composition total unchanged: `B·c = B·c₀`. -/
+theorem extent_preserves_totals (s : EqSystem) (hbal : Balanced s) (c0 ξ : List ℝ) (hlen : c0.length = s.ns) :
+    ∀ b ∈ compMat s, total b (addExtent c0 (netStoichs s) ξ) = total b c0 := by
+  intro b hb
+  apply total_addExtent
+  · intro row hrow
+    simp only [netStoichs, List.mem_map] at hrow
+    obtain ⟨r, _, rfl⟩ := hrow
+    simp [netStoich, hlen, EqSystem.ns]
+  · exact hbal b hb
+
+/-- consequence for the residual: started from `c₀`, every state reachable by reaction extents keeps the
+    conservation block of `NumSysLin.f` at zero -/
+theorem extent_keeps_conservation_zero (s : EqSystem) (hbal : Balanced s) (c0 ξ b : List ℝ)
+    (hlen : c0.length = s.ns) (hb : matDotVec (intMat (compMat s)) c0 = some b) :
+    ∀ x ∈ linearExprs (compMat s) (addExtent c0 (netStoichs s) ξ) b, x = 0 :=
+  (conservation_iff_same_totals (compMat s) _ c0 b hb).mpr (extent_preserves_totals s hbal c0 ξ hlen)
+
+/-! ## Number of equations -/
+
+/-- **`equation_count`** (Lin, hence Square and LinRel): `nr + number of composition keys` entries. -/
+theorem equation_count (s : EqSystem) (prec : List Bool) (small : ℝ) (y p r : List ℝ)
+    (h : numSysLinF s prec small y p = .ok r) :
+    r.length = s.nr + (compositionBalanceVectors s).2.length := by
+  obtain ⟨A, hA, _, hshape, hr⟩ := numSysLinF_ok h
+  rw [hr, List.length_append, List.length_zipWith, List.length_zipWith, List.length_map, List.length_map,
+    stoichs_length hA, ksOf_length hshape, compMat_length]
+  simp
+
+/-- `equation_count` for the logarithmic formulation -/
+theorem equation_count_log (s : EqSystem) (prec : List Bool) (small : ℝ) (y p r : List ℝ)
+    (h : numSysLogF s prec small y p = .ok r) :
+    r.length = s.nr + (compositionBalanceVectors s).2.length := by
+  obtain ⟨A, hA, hshape, hr⟩ := numSysLogF_ok h
+  rw [hr, List.length_append, List.length_zipWith, List.length_zipWith, List.length_map, List.length_map,
+    stoichs_length hA, ksOf_length hshape, compMat_length]
+  simp
+
+/-! ## The algebra behind `rref_equil` / `rref_preserv` -/
+
+/-- **`row_ops_preserve_zero_set`.**  Left multiplication of a residual vector by an invertible matrix
+    (the row operations of a row reduction; rows that become identically `0 = 0` are then dropped)
+    does not change its zero set: `M·(B·y − b) = 0 ⇔ B·y − b = 0`. -/
+theorem row_ops_preserve_zero_set {m n : ℕ} (M : Matrix (Fin m) (Fin m) ℝ) (hM : IsUnit M.det)
+    (B : Matrix (Fin m) (Fin n) ℝ) (y : Fin n → ℝ) (b : Fin m → ℝ) :
+    M.mulVec (B.mulVec y - b) = 0 ↔ B.mulVec y - b = 0 :=
+  mulVec_eq_zero_iff_of_isUnit_det M hM _
+
+/-! ## Non-vacuity: a concrete instance (water autoprotolysis, exact over ℚ) -/
+
+/-- `H2O = H+ + OH-` with species `H2O, H+, OH-` (compositions as produced by `Species.from_formula`) -/
+def water : EqSystem :=
+  { rxns := [{ reac := [("H2O", 1)], prod := [("H+", 1), ("OH-", 1)] }],
+    substances := [("H2O", { comp := [(1, 2), (8, 1)] }), ("H+", { comp := [(1, 1), (0, 1)] }),
+                   ("OH-", { comp := [(8, 1), (1, 1), (0, -1)] })] }
+
+example : Homogeneous water := by
+  intro kv hkv
+  simp [water] at hkv
+  rcases hkv with rfl | rfl | rfl <;> rfl
+
+example : Balanced water := by
+  intro b hb ν hν
+  simp [compMat, compositionBalanceVectors, compositionKeys, insertSorted, water, cget, List.lookup] at hb
+  simp [netStoichs, netStoich, netCoeff, dget, water, List.lookup] at hν
+  subst hν
+  rcases hb with rfl | rfl | rfl <;> decide
+
+/-- at the exactly constructed equilibrium (c = (55, 1e-7, 1e-7), K = Q(c), c₀ = c − ξ·ν) all four equations vanish -/
+example : numSysLinF (α := Rat) water [] 0 [55, 1 / 10000000, 1 / 10000000]
+    [55 + 1 / 10000000, 0, 0, 1 / 5500000000000000] = .ok [0, 0, 0, 0] := by decide +kernel
+
+/-- with a wrong constant only the equilibrium entry is non-zero; with wrong totals only conservation entries -/
+example : numSysLinF (α := Rat) water [] 0 [55, 1 / 10000000, 1 / 10000000]
+    [55 + 1 / 10000000, 0, 0, 1 / 11000000000000000] = .ok [1, 0, 0, 0] := by decide +kernel
+
+example : numSysLinF (α := Rat) water [] 0 [55, 1 / 10000000, 1 / 10000000]
+    [55, 1 / 10000000, 0, 1 / 5500000000000000] = .ok [0, -1 / 10000000, 1 / 10000000, 1 / 10000000] := by decide +kernel
+
+/-- a zero concentration under a negative exponent raises, as in Python -/
+example : numSysLinF (α := Rat) water [] 0 [0, 1, 1] [1, 1, 1, 1] = .error "ZeroDivisionError" := by decide +kernel
+
+/-! ## Outside the property's quantifier (heterogeneous systems): a defect mirrored by the model -/
+
+/-- `NaCl(s) = Na+ + Cl-` (solid written as reactant) -/
+def saltReactant : EqSystem :=
+  { rxns := [{ reac := [("NaCl(s)", 1)], prod := [("Na+", 1), ("Cl-", 1)] }],
+    substances := [("Na+", { comp := [(11, 1), (0, 1)] }), ("Cl-", { comp := [(17, 1), (0, -1)] }),
+                   ("NaCl(s)", { comp := [(11, 1), (17, 1)], phaseIdx := 1 })] }
+
+/-- the same equilibrium written as `Na+ + Cl- = NaCl(s)` (solid as product, `K = 1/Ksp`) -/
+def saltProduct : EqSystem :=
+  { saltReactant with rxns := [{ reac := [("Na+", 1), ("Cl-", 1)], prod := [("NaCl(s)", 1)] }] }
+
+/-- **Defect witness (reported; relevant to C08).**  With `precipitates = (False,)` the row of a
+    phase-transfer reaction is `-precipitate_stoich` and its constant `small = 0`, so the residual is
+    `[solid]^(-ν_solid)`.  For a solid written as reactant this is `[solid]`, which vanishes at the solid-free
+    state; for a solid written as PRODUCT it is `1/[solid]`: the call raises ZeroDivisionError at the
+    solid-free state (and is non-zero everywhere else), so that formulation has no root at all. -/
+theorem product_side_solid_defect_witness :
+    numSysLinF (α := Rat) saltReactant [false] 0 [6, 6, 0] [6, 6, 0, 36] = .ok [0, 0, 0, 0] ∧
+    numSysLinF (α := Rat) saltProduct [false] 0 [6, 6, 0] [6, 6, 0, 1 / 36] = .error "ZeroDivisionError" ∧
+    numSysLinF (α := Rat) saltProduct [false] 0 [6, 6, 1 / 2] [6, 6, 1 / 2, 1 / 36] = .ok [2, 0, 0, 0] := by
+  decide +kernel
+
 end ChemModel.C07
